@@ -16,6 +16,29 @@ from .summary import MEMFNS, PURE_INTRINSICS, akey
 # linear form: (const, ((atom, coeff), ...)) with atoms sorted by repr
 
 
+def _rset(ranges):
+    s = set()
+    for (a, b) in ranges:
+        s.update(range(a, b))
+    return s
+
+
+def _runs(byteset):
+    out = []
+    st = prev = None
+    for b in sorted(byteset):
+        if st is None:
+            st = prev = b
+        elif b == prev + 1:
+            prev = b
+        else:
+            out.append((st, prev + 1))
+            st = prev = b
+    if st is not None:
+        out.append((st, prev + 1))
+    return out
+
+
 def lf_const(c):
     return (c, ())
 
@@ -356,16 +379,15 @@ class InitFlow:
                                     self.check_read(st, i, obj, lo, lf_add(lo, lf_const(loc.size)), "read by %s (%s)" % (g.name, w.split(" ")[0]))
                                 else:
                                     self.check_read(st, i, obj, base_off, None, "read by %s through a variable offset (%s)" % (g.name, w.split(" ")[0]))
-                    # must-writes through parameter k common to all return classes
+                    # bytes definitely written through parameter k whatever the callee returns (its own E5 summary)
+                    isum = self.an.init_of(g.key)
                     gens = None
-                    for cl, cs in s.cls.items():
-                        gs = set()
-                        for kk, (loc, t) in (cs.must or {}).items():
-                            if loc.addr.root == ("arg", k) and len(loc.addr.segs) == 1 and loc.addr.segs[0].off is not None and loc.size:
-                                gs.add((loc.addr.segs[0].off, loc.addr.segs[0].off + loc.size))
+                    for cl, per in isum.items():
+                        gs = _rset(per.get(k, ()))
                         gens = gs if gens is None else (gens & gs)
-                    gens_all = gens if gens_all is None else (gens_all & (gens or set()))
-                for (lo, hi) in sorted(gens_all or ()):
+                    gens = gens or set()
+                    gens_all = gens if gens_all is None else (gens_all & gens)
+                for (lo, hi) in _runs(gens_all or ()):
                     self.gen(st, obj, lf_add(base_off, lf_const(lo)), lf_add(base_off, lf_const(hi)))
 
     def class_gens(self, i, cl):
@@ -377,19 +399,16 @@ class InitFlow:
         g = self.prog.resolve(f.unit, c[1])
         if g is None:
             return []
-        s = self.an.summaries[g.key]
-        cs = s.cls.get(cl)
+        per = self.an.init_of(g.key).get(cl)
         out = []
-        if not cs:
+        if not per:
             return out
         for k, a in enumerate(i["ops"]):
             p = self.ptr(a) if a[0] in ("i", "a") else None
             if p is None or not self.tracked(p[0]):
                 continue
-            for kk, (loc, t) in (cs.must or {}).items():
-                if loc.addr.root == ("arg", k) and len(loc.addr.segs) == 1 and loc.addr.segs[0].off is not None and loc.size:
-                    lo = lf_add(p[1], lf_const(loc.addr.segs[0].off))
-                    out.append((p[0], lo, lf_add(lo, lf_const(loc.size))))
+            for (lo, hi) in per.get(k, ()):
+                out.append((p[0], lf_add(p[1], lf_const(lo)), lf_add(p[1], lf_const(hi))))
         return out
 
     def edge(self, b, succ, st):
